@@ -231,6 +231,10 @@ func inferCAInfoFromKey(chipAuthPubKeyInfos []document.ChipAuthenticationPublicK
 			return nil, nil, fmt.Errorf("[inferCAInfoFromKey] inferCAInfoFromKeyProtocol error: %w", err)
 		}
 
+		// reference the key we inferred from: a chip with several keys needs the key-id (DO'84')
+		// to know which private key to use
+		caInfo.KeyId = keyInfo.KeyId
+
 		caAlgInfo, err = algInfo(caInfo.Protocol)
 		if err != nil {
 			return nil, nil, fmt.Errorf("[inferCAInfoFromKey] algInfo error: %w", err)
